@@ -351,6 +351,11 @@ func checkCertificate(
 	}
 }
 
+// isXSBooleanTrue reports whether v is a lexical form of the xs:boolean value true ("true" or "1")
+func isXSBooleanTrue(v string) bool {
+	return v == "true" || v == "1"
+}
+
 func GetAcsUrlAndBindingForResponse(
 	acs []md.IndexedEndpointType,
 	requestProtocolBinding string,
@@ -370,7 +375,7 @@ func GetAcsUrlAndBindingForResponse(
 	if !found {
 		isDefaultFound := false
 		for _, acs := range acs {
-			if acs.IsDefault == "true" {
+			if isXSBooleanTrue(acs.IsDefault) {
 				isDefaultFound = true
 				acsUrl = acs.Location
 				protocolBinding = acs.Binding
